@@ -58,6 +58,24 @@ theorem rollback_exact (s : RState) (it : Item) (s' : RState) (hb : TblBelow s) 
   obtain ⟨rfl, _⟩ := hspec.tooBig_eq
   exact ⟨rfl, rfl, rfl, rfl, hb⟩
 
+/-- `rollback_exact` for *any* exception raised while an item is being written, not only `TooBig` (repair 2e4231d:
+`_track_size` rolls back in an `except BaseException`): whatever the unfinished write had done — any octets `o` appended
+to the buffer, any entries `t` added to the compression table for names inside those octets (`Appends`; every step of
+writing an item is of this form: `toWireC_appends`, `rdataToWire_appends`, `rrsetToWire_appends`, and they compose) —
+`_rollback(start)` leaves the renderer exactly as it was before the call, except for the section marker `_set_section`
+had already moved.  This is the state the model's `.err` outcome stands for. -/
+theorem rollback_exact_any (s : RState) (hb : TblBelow s) (sec : Nat) (o : Bytes) (t : CTable)
+    (ha : Appends s.out s.tbl o t) :
+    ({ s with sec := sec, out := o, tbl := t } : RState).rollback s.out.length = { s with sec := sec } ∧
+    TblBelow { s with sec := sec } :=
+  ⟨rollback_appends { s with sec := sec } o t ha hb, hb⟩
+
+-- non-vacuity: the owner `ok.example.` and a record header written at offset 29, the suffix `example.` already in the table,
+-- one entry added for `ok.example.`; then the RDATA raises: rolling back to 29 restores buffer and table
+example : ({ out := List.replicate 29 0 ++ [2,111,107,192,16,0,2,0,1,0,0,1,44,0,0], tbl := [([[101,120,97,109,112,108,101],[]], 16), ([[111,107],[101,120,97,109,112,108,101],[]], 29)], maxSize := 65535, id := 1, flags := 0, sec := 1 } : RState).rollback 29
+    = { out := List.replicate 29 0, tbl := [([[101,120,97,109,112,108,101],[]], 16)], maxSize := 65535, id := 1, flags := 0, sec := 1 } := by
+  rfl
+
 /-- … and the invariant "every table entry points into the buffer" holds in every state the section loops of
 `to_wire` reach, so `rollback_exact` applies at every `TooBig`. -/
 theorem table_below_reachable (m : Message) (L : Nat) (pt : Bool) (a b : Nat) (r : RState)
